@@ -110,7 +110,9 @@ def value_sample(rnd, typename, depth=0, gen=None):
         return rnd.choice(["ls -l /tmp", r"C:\Windows\system32\cmd.exe /c dir", "/bin/echo 'a b' c", "single",
                            r"%WINDIR%\x.dll a,b", r"'c:\path to\exe' /d /a", "/usr/bin/env",
                            # an EMPTY executable (an empty quoted first word) with arguments
-                           "'' --help -v", '"" x', command.from_windows("'' /d /a"), command.from_posix("'' -x")])
+                           "'' --help -v", '"" x', command.from_windows("'' /d /a"), command.from_posix("'' -x"),
+                           # an UNSET command of either flavour (executable None): the flavour is all it carries
+                           command.from_windows(None), command.from_posix(None)])
     if t == "digest":
         md5 = "d41d8cd98f00b204e9800998ecf8427e"
         sha1 = "da39a3ee5e6b4b0d3255bfef95601890afd80709"
@@ -365,7 +367,13 @@ def obs_value(typename, v, canonical_unset=False):
     if typename == "digest":
         if not isinstance(v, ft.digest):
             raise Unobservable("digest field holds %r" % type(v))
-        a, b, c = v._pack()
+        # by the ATTRIBUTES a user reads (hex text), not by _pack(): a stale packed form behind a cleared attribute
+        # would otherwise describe the written record exactly as the reader sees it
+        import binascii
+        a, b, c = (binascii.unhexlify(h) if h else None for h in (v.md5, v.sha1, v.sha256))
+        pa, pb, pc = v._pack()
+        if (a, b, c) != (pa or None, pb or None, pc or None):
+            raise Unobservable("digest attributes %r and packed form %r disagree" % ((v.md5, v.sha1, v.sha256), (pa, pb, pc)))
         return ("digest", a, b, c)
     if typename in ("net.ipaddress", "net.IPAddress"):
         if not isinstance(v, ipaddress):
